@@ -44,7 +44,10 @@ type c19Step struct {
 	preset []bool // output already carries a correlation id
 	errK   int    // 0 nil, 1 ignored, 2 wrapped ignored, 3 other, 4 wraps context.DeadlineExceeded
 	panicK int    // 0 none, 1 string, 2 error, 3 nil
+	setCtx bool   // the handler replaces the message context by one derived from it (a tracing wrapper adding a value)
 }
+
+type c19CtxKey struct{}
 
 type c19Obs struct {
 	deadlineSet  bool
@@ -78,6 +81,9 @@ func (b *c19Bare) handle(m *message.Message) ([]*message.Message, error) {
 		o.at = b.r.Sim.Now()
 	}
 	b.obs = append(b.obs, o)
+	if st.setCtx {
+		m.SetContext(context.WithValue(m.Context(), c19CtxKey{}, i))
+	}
 	var outs []*message.Message
 	for k := 0; k < st.outs; k++ {
 		x := message.NewMessage(fmt.Sprintf("out-%d-%d", i, k), []byte("o"))
@@ -244,7 +250,7 @@ func c19StackBody(r *Run) {
 	presentations := 1 + t.Int(4)
 	var script []c19Step
 	for i := 0; i < 24; i++ {
-		st := c19Step{outs: t.Int(3)}
+		st := c19Step{outs: t.Int(3), setCtx: t.Chance(1, 5)}
 		for k := 0; k < st.outs; k++ {
 			st.preset = append(st.preset, t.Chance(1, 3))
 		}
@@ -579,7 +585,7 @@ func c19ConcurrentBody(r *Run) {
 	for i := 0; i < nMsgs; i++ {
 		var script []c19Step
 		for k := 0; k < 12; k++ {
-			st := c19Step{outs: t.Int(3)}
+			st := c19Step{outs: t.Int(3), setCtx: t.Chance(1, 5)}
 			for j := 0; j < st.outs; j++ {
 				st.preset = append(st.preset, t.Chance(1, 3))
 			}
